@@ -96,6 +96,26 @@ func ruleValidateSaveNotify(c *core.Ctx, recv, name string) {
 		return
 	}
 	var validate, saveCall, notify ssa.CallInstruction
+	// the three steps may sit in a private method the function ends with
+	// (return o.applyProperty(name, value, sig, data)): the rule then reads that method, and
+	// the function itself succeeds only through it
+	if len(propertySteps(fn, save)) < 3 {
+		for _, call := range core.Calls(fn) {
+			h := core.StaticCallee(call)
+			if h == nil || h == fn || !isPrivateHelper(c, h) || len(propertySteps(h, save)) < 3 {
+				continue
+			}
+			okOuter := true
+			for _, ret := range core.Returns(fn) {
+				if core.IsNilConst(core.RetVal(ret, 0)) && !core.MustPassBefore(fn, ret, func(x ssa.Instruction) bool { return x == call.(ssa.Instruction) }) {
+					okOuter = false
+				}
+			}
+			c.Check(okOuter, rule, key+"/through-helper", call.Pos(), "success only through "+h.Name()+", which validates, saves and notifies", "the function can succeed without running the method that validates, saves and notifies")
+			fn = h
+			break
+		}
+	}
 	for _, call := range core.Calls(fn) {
 		cc := call.Common()
 		if !cc.IsInvoke() && cc.StaticCallee() == nil {
@@ -500,6 +520,15 @@ func ruleDeclaredType(c *core.Ctx) {
 			what = "notify"
 		}
 		if what == "" {
+			// the steps in a private method that is called here
+			if h := cc.StaticCallee(); h != nil && h != fn && isPrivateHelper(c, h) {
+				for _, kind := range propertySteps(h, save) {
+					n++
+					c.Check(core.Guarded(fn, call.(ssa.Instruction), guard), rule, key+"/"+kind, call.Pos(),
+						"reached (in "+h.Name()+") only across a successful comparison of the written value's signature with the declared one",
+						"the "+kind+" step of a client write (in "+h.Name()+") is reached without the signature of the value having been compared with the property's declared signature (MetaProperty.Signature)")
+				}
+			}
 			continue
 		}
 		n++
@@ -510,4 +539,35 @@ func ruleDeclaredType(c *core.Ctx) {
 	if n < 3 {
 		c.Undecided(rule, key, fn.Pos(), fmt.Sprintf("only %d of the validator / save / notify steps found in SetProperty", n))
 	}
+}
+
+// propertySteps: which of the validator / save / notify steps of a property
+// write f performs itself.
+func propertySteps(f, save *ssa.Function) []string {
+	seen := map[string]bool{}
+	for _, call := range core.Calls(f) {
+		cc := call.Common()
+		if !cc.IsInvoke() && cc.StaticCallee() == nil {
+			p := core.AccessPath(cc.Value)
+			if len(p.Fields) > 0 && p.Fields[len(p.Fields)-1].Name() == "onPropertyChange" {
+				seen["validator"] = true
+			}
+		}
+		if save != nil && core.IsCallTo(call, save) {
+			seen["save"] = true
+		}
+		if g := cc.StaticCallee(); g != nil && g.Name() == "UpdateProperty" {
+			seen["notify"] = true
+		}
+		if cc.IsInvoke() && cc.Method.Name() == "UpdateProperty" {
+			seen["notify"] = true
+		}
+	}
+	var out []string
+	for _, k := range []string{"validator", "save", "notify"} {
+		if seen[k] {
+			out = append(out, k)
+		}
+	}
+	return out
 }
